@@ -207,6 +207,13 @@ def read(fh, cocos=1):
     if len(words) < 3:
         raise ValueError("Expecting at least 3 numbers on first line")
 
+    # The header ends with three integers in fixed-width (3i4) fields, which abut
+    # when nx or ny has four digits, so try the fixed-width fields first
+    fixed = header.rstrip("\r\n")[-12:]
+    fixed = [fixed[0:4], fixed[4:8], fixed[8:12]]
+    if all(len(w) == 4 and w.strip().isdigit() and w == w.strip().rjust(4) for w in fixed):
+        words = fixed
+
     idum = int(words[-3])  # noqa: F841
     nx = int(words[-2])
     ny = int(words[-1])
